@@ -115,6 +115,7 @@ def run(prop, tier):
 
 def replay(prop, path):
     out = C.Outcome(prop, "quick")
+    out.no_evidence = True
     out.level = "exploration"
     wd = C.workdir("xptotr")
     try:
